@@ -479,8 +479,21 @@ func (pf *ParserFacts) driverGuard(s SlotStore, accepted ...atomKind) (bool, str
 					continue
 				}
 				d := pf.derive(c, false)
+				stringMode := false
+				hasSlice := false
+				for _, k := range accepted {
+					if k == atomDataType {
+						stringMode = true
+					}
+					if k == atomSlice {
+						hasSlice = true
+					}
+				}
 				for _, a := range pf.atomsOn(fn, d) {
 					for _, k := range accepted {
+						if k == atomDataType && stringMode && !hasSlice {
+							continue // the data type alone also admits []string
+						}
 						if a.kind == k && leadsToErrorReturn(a.ifi.Block().Succs[1-a.holdsOn], 0) {
 							return true, "not tested by the parser; the driver tests " + s.Node + "." + callee.Name() + "() (" + string(k) + ") with an error exit before translating – rejected for both targets"
 						}
